@@ -135,7 +135,6 @@ func (chars *Chars) TrimLength() uint16 {
 	if chars.trimLengthKnown {
 		return chars.trimLength
 	}
-	chars.trimLengthKnown = true
 	var i int
 	len := chars.Length()
 	for i = len - 1; i >= 0; i-- {
@@ -146,6 +145,7 @@ func (chars *Chars) TrimLength() uint16 {
 	}
 	// Completely empty
 	if i < 0 {
+		chars.trimLengthKnown = true
 		return 0
 	}
 
@@ -156,7 +156,10 @@ func (chars *Chars) TrimLength() uint16 {
 			break
 		}
 	}
+	// The item may be copied by ChunkList.Snapshot at any moment: the value is
+	// stored before it is declared known so that a copy never carries a wrong one
 	chars.trimLength = AsUint16(i - j + 1)
+	chars.trimLengthKnown = true
 	return chars.trimLength
 }
 
